@@ -74,7 +74,18 @@ def step (line : String) : String :=
   | ["corr2", anti, n, s, dt, spa, spb] =>
     match parseInt? n, parseRat? s, parseRat? dt, spec? spa, spec? spb with
     | some n, some s, some dt, some spa, some spb =>
-      if anti == "0" || anti == "1" then showRes (corr2 (anti == "1") n dt s spa spb) else "bad-op"
+      if anti == "0" || anti == "1" then
+        match corr2 (anti == "1") n dt s spa spb with
+        | .error e => showErr e
+        | .ok o =>
+          -- operators / sides of the contraction calls (made iff something is written)
+          let ops := if anti == "1" then Generated.CorrTimes.anti_operators
+                     else Generated.CorrTimes.ordered_operators
+          let ords := if anti == "1" then Generated.CorrTimes.anti_ops_order
+                      else Generated.CorrTimes.ordered_ops_order
+          let sig := ",".intercalate ((ops.zip ords).map (fun p => p.1 ++ ":" ++ p.2))
+          showOutcome o ++ "|call=" ++ (if o.writes.isEmpty then "" else sig)
+      else "bad-op"
     | _, _, _, _, _ => "bad-op"
   | ["dt", u, p] =>
     match optRat? u, optRat? p with
